@@ -39,6 +39,9 @@ C2 = dict(type="x-unreg", spec_version="2.1", id=XID, created="2020-01-01T00:00:
 C0 = dict(type="x-unreg", spec_version="2.1", id=XID, created="2020-01-01T00:00:00Z", modified="2020-01-01T00:00:00Z", name="c0")
 C3 = dict(type="x-unreg", spec_version="2.1", id=XID, created="2020-01-01T00:00:00Z", modified="2020-01-01T00:00:02.0004Z", name="c3")
 C4 = dict(type="x-unreg", spec_version="2.1", id=XID, created="2020-01-01T00:00:00Z", modified="2020-01-01T00:00:02.0009Z", name="c4")   # same millisecond as C3
+NCID = "x-unreg--" + U + "c"
+NC1 = dict(type="x-unreg", spec_version="2.1", id=NCID, modified="2020-01-01T00:00:00.000Z", name="nc1")      # versioned by 'modified' alone ('created' is absent)
+NC2 = dict(type="x-unreg", spec_version="2.1", id=NCID, modified="2020-01-02T00:00:00.000Z", name="nc2")
 CU = dict(type="x-unreg", spec_version="2.1", id="x-unreg--" + U + "8", name="cu")     # no 'modified': stored unversioned, in the same type directory as C0..C4
 T5ID = "tool--e1d2f3a4-5b6c-51ea-8d7e-0123456789ab"          # UUIDv5-shaped id (legal in 2.1), the only id of its type directory
 TOOL5A = dict(type="tool", spec_version="2.1", id=T5ID, created=T1, modified=T1, name="t5a")
@@ -51,7 +54,7 @@ COA_UP2 = dict(type="course-of-action", spec_version="2.1", id=UPID, created=T1,
 RID = "x-verif-obj--" + U + "6"
 R1 = dict(type="x-verif-obj", spec_version="2.1", id=RID, created=T1, modified=T1, prop="r1")
 R2 = dict(type="x-verif-obj", spec_version="2.1", id=RID, created=T1, modified=T2, prop="r2")
-IDS = [A, SCO["id"], OLD20["id"], MD["id"], XID, RID, T5ID, I1ID, "campaign--" + U + "9", CU["id"], UPID]
+IDS = [A, SCO["id"], OLD20["id"], MD["id"], XID, RID, T5ID, I1ID, "campaign--" + U + "9", CU["id"], UPID, NCID]
 TYPES = ["campaign", "ipv4-addr", "marking-definition", "x-unreg", "x-verif-obj", "tool", "identity", "malware", "course-of-action"]
 
 
@@ -91,6 +94,7 @@ def EVENTS():
         "c0": (lambda: copy.deepcopy(C0), [C0]), "c1": (lambda: copy.deepcopy(C1), [C1]), "c2": (lambda: copy.deepcopy(C2), [C2]),
         "mix-list": (lambda: [O(V2), copy.deepcopy(C1), O(SCO)], [V2, C1, SCO]),
         "cu": (lambda: copy.deepcopy(CU), [CU]),
+        "nc1": (lambda: copy.deepcopy(NC1), [NC1]), "nc2": (lambda: copy.deepcopy(NC2), [NC2]), "nc12-bundle": (lambda: bundle_dict(NC1, NC2), [NC1, NC2]),
         "coa-upper1": (lambda: O(COA_UP1), [COA_UP1]), "coa-upper2-dict": (lambda: copy.deepcopy(COA_UP2), [COA_UP2]),
         # arrival through a FILE (memory: load_from_file into the store as it stands; filesystem: the same bundle dict through add)
         "v2-loadfile": (lambda: ("$loadfile", bundle_dict(V2)), [V2]), "v1v3-loadfile": (lambda: ("$loadfile", bundle_dict(V1, V3)), [V1, V3]),
@@ -101,8 +105,8 @@ def EVENTS():
 
 
 QUICK_EVENTS = ["v1-obj", "v2-obj", "v3-obj", "v1-dict", "v2-dict-6digits", "v3-list", "v1v3-bundle-obj", "v2-bundle-dict", "v1-text", "v2x-obj",
-                "sco", "old20-dict", "md", "reg2-dict", "c0", "c1", "c2", "mix-list", "c3", "c4-text", "tool5a", "tool5b-dict", "v3us-obj", "cu", "coa-upper1", "v2-loadfile", "v1v3-loadfile", "c2-loadfile"]
-ALL_EVENTS = QUICK_EVENTS + ["reg1", "ident1", "coa-upper2-dict"]
+                "sco", "old20-dict", "md", "reg2-dict", "c0", "c1", "c2", "mix-list", "c3", "c4-text", "tool5a", "tool5b-dict", "v3us-obj", "cu", "coa-upper1", "v2-loadfile", "v1v3-loadfile", "c2-loadfile", "nc1", "nc2"]
+ALL_EVENTS = QUICK_EVENTS + ["reg1", "ident1", "coa-upper2-dict", "nc12-bundle"]
 
 
 def instant_of(d):
@@ -212,7 +216,7 @@ def observe(store, part, what):
 
 def feature_of(id_):
     return {A: "versioned-sdo", SCO["id"]: "unversioned-sco", OLD20["id"]: "v20-sdo", MD["id"]: "marking-definition", XID: "unregistered-dict",
-            RID: "registered-custom", T5ID: "uuid5-id", I1ID: "uuid1-id", CU["id"]: "unversioned-unregistered-dict", UPID: "upper-case-hex-id"}.get(id_, "absent-id")
+            RID: "registered-custom", T5ID: "uuid5-id", I1ID: "uuid1-id", CU["id"]: "unversioned-unregistered-dict", UPID: "upper-case-hex-id", NCID: "dict-without-created"}.get(id_, "absent-id")
 
 
 def compare(sname, obs, model, part, case, conflicted):
